@@ -104,6 +104,11 @@ impl FixtureDatabase {
             if entry.file_type().is_file() {
                 return true;
             }
+            // The workspace folder itself is always walked, whatever it is called
+            // (a project checked out into a directory named `build` or `env`)
+            if entry.depth() == 0 {
+                return true;
+            }
             // For directories, check if we should skip them
             if let Some(dir_name) = entry.file_name().to_str() {
                 !Self::should_skip_directory(dir_name)
